@@ -46,12 +46,21 @@ type fakeBody struct {
 	eofWithData bool
 	// onRead, when set, runs at the start of every Read: what other goroutines do while this Read is "blocked"
 	onRead func()
+	// gated: the client has only sent the first avail bytes so far and sends more only after it has received
+	// the peer's reply. A Read (of any size, also zero: an HTTP/2 request body blocks on every Read until data
+	// or the end of the stream arrives) that finds nothing available would wait for that - it is counted.
+	gated   bool
+	avail   int
+	blocked int
 }
 
 func (b *fakeBody) Read(p []byte) (int, error) {
 	b.reads++
 	if b.onRead != nil {
 		b.onRead()
+	}
+	if b.gated && b.pos >= b.avail {
+		b.blocked++
 	}
 	if b.pos >= len(b.data) {
 		if b.failEnd {
@@ -62,6 +71,9 @@ func (b *fakeBody) Read(p []byte) (int, error) {
 	n := len(b.data) - b.pos
 	if b.chunk > 0 && n > b.chunk {
 		n = b.chunk
+	}
+	if b.gated && b.pos < b.avail && n > b.avail-b.pos {
+		n = b.avail - b.pos
 	}
 	if n > len(p) {
 		n = len(p)
